@@ -94,8 +94,16 @@ pub fn run(thorough: bool, seed: u64, _replay: Option<String>) -> Report {
     let traps = [DecoderTrap::Strict, DecoderTrap::Ignore, DecoderTrap::Replace];
     // ---- (a) helper == codec for every resolvable encoding, trap, test-only flag
     for i in 0..n {
-        let enc = sup[i % sup.len()];
-        let b = sample_bytes(&mut rng, enc);
+        let mut enc = sup[i % sup.len()];
+        let mut b = sample_bytes(&mut rng, enc);
+        if i % 40 == 7 && sup.contains(&"big5") {
+            // sequences that decode to two characters each, inside ordinary text
+            enc = "big5";
+            b = big5_two_codepoint_text(&mut rng);
+            if i % 80 == 7 {
+                b.truncate(rng.range(1, b.len().max(2)));
+            }
+        }
         let codec = encoding_from_whatwg_label(enc).unwrap();
         let mut trap = traps[0];
         let mut only_test = false;
@@ -149,6 +157,188 @@ pub fn run(thorough: bool, seed: u64, _replay: Option<String>) -> Report {
                 if model != want {
                     rep.fail("t3", "C17:helper-model-disagrees", &format!("{} trap={} only_test={} chunk={}: impl {} || model {}", enc, trap_name(trap), only_test, chunk, want, model), &b, None, enc);
                 }
+            }
+        }
+    }
+    // ---- (a-h) the helper is a function of its arguments – not of the calls before it: an input that leaves a decoder in
+    //      the middle of something (inside a shifted run, after a lead byte, half a code unit, an open escape sequence) and is
+    //      rejected or cut there, then ordinary inputs in the same encoding, each compared with the codec on its own
+    {
+        let leftovers: Vec<(&str, Vec<Vec<u8>>, Vec<Vec<u8>>)> = vec![
+            (
+                "iso-2022-jp",
+                vec![b"abc \x1b$B$3$l\xe9".to_vec(), b"\x1b(I1234\xff".to_vec(), b"\x1b$(D\x22\x2f\x80".to_vec(), b"\x1b$B$3$".to_vec(), b"\x1b$B\x7f\x7f".to_vec(), b"x\x1b$".to_vec(), b"\x1b(Jabc\x80".to_vec()],
+                vec![b"1234 plain ascii".to_vec(), b"0!0!".to_vec(), b"\x1b$B$3$s$K$A$O\x1b(B ok".to_vec(), b"$3$l".to_vec(), b"\\~".to_vec()],
+            ),
+            ("euc-jp", vec![b"abc\xa4".to_vec(), b"\x8f\xb0".to_vec(), b"\x8e".to_vec(), b"\xa4\xff".to_vec()], vec![b"plain".to_vec(), b"\xa4\xb3\xa4\xf3".to_vec(), b"\xa2".to_vec()]),
+            ("shift_jis", vec![b"abc\x82".to_vec(), b"\x82\xff".to_vec(), b"\xfc\xfc".to_vec()], vec![b"plain".to_vec(), b"\x82\xb1\x82\xf1".to_vec(), b"\xa0".to_vec()]),
+            ("gb18030", vec![b"abc\x81".to_vec(), b"\x81\x30".to_vec(), b"\x81\x30\x81".to_vec(), b"\x84\x31\xa5".to_vec()], vec![b"plain".to_vec(), b"\xc4\xe3\xba\xc3".to_vec(), b"09".to_vec(), b"\x30".to_vec()]),
+            ("gbk", vec![b"abc\x81".to_vec(), b"\xfe\xff".to_vec()], vec![b"plain".to_vec(), b"\xc4\xe3\xba\xc3".to_vec(), b"@".to_vec()]),
+            ("big5", vec![b"abc\xa4".to_vec(), b"\x88\x62\x88".to_vec(), b"\xa4\xff".to_vec()], vec![b"plain".to_vec(), b"\xa7\x41\xa6\x6e".to_vec(), b"b".to_vec()]),
+            ("euc-kr", vec![b"abc\xb0".to_vec(), b"\xb0\xff".to_vec()], vec![b"plain".to_vec(), b"\xbe\xc8\xb3\xe7".to_vec(), b"\xa1".to_vec()]),
+            ("utf-8", vec![b"abc\xe2\x82".to_vec(), b"\xf0\x9f\x98".to_vec(), b"\xc3".to_vec(), b"\xed\xa0".to_vec()], vec![b"plain".to_vec(), b"\xac".to_vec(), b"\x80abc".to_vec(), "é€".as_bytes().to_vec()]),
+            ("utf-16le", vec![b"a\x00b".to_vec(), b"\x3d\xd8".to_vec(), b"\x3d\xd8\x00".to_vec(), b"\x00\xdc".to_vec()], vec![b"a\x00".to_vec(), b"\x00\xde".to_vec(), b"\x00a\x00".to_vec()]),
+            ("utf-16be", vec![b"\x00a\x00".to_vec(), b"\xd8\x3d".to_vec(), b"\xd8\x3d\xde".to_vec()], vec![b"\x00a".to_vec(), b"\xde\x00".to_vec(), b"a\x00b".to_vec()]),
+            ("windows-1252", vec![b"abc\x81".to_vec()], vec![b"plain\xe9".to_vec()]),
+        ];
+        for (enc, firsts, seconds) in &leftovers {
+            let codec = match encoding_from_whatwg_label(enc) {
+                Some(c) if sup.contains(enc) => c,
+                _ => continue,
+            };
+            for (fi, first) in firsts.iter().enumerate() {
+                for (ti, t1) in traps.iter().enumerate() {
+                    if !thorough && (fi + ti) % 2 == 1 && *enc != "iso-2022-jp" {
+                        continue;
+                    }
+                    for chunk1 in [false, true] {
+                        for second in seconds {
+                            for t2 in traps.iter() {
+                                for only_test in [false, true] {
+                                    let _ = std::panic::catch_unwind(|| decode(first, enc, *t1, false, chunk1));
+                                    let want = codec.decode(second, *t2).ok();
+                                    let expect = if only_test { want.as_ref().map(|_| String::new()) } else { want.clone() };
+                                    let got = std::panic::catch_unwind(|| decode(second, enc, *t2, only_test, false));
+                                    rep.evaluations += 1;
+                                    rep.oracle_checked += 1;
+                                    rep.count("helper:after-a-leftover");
+                                    match got {
+                                        Err(_) => rep.fail("oracle", "C17:helper-panicked", &format!("{} {} after {}", enc, trap_name(*t2), hex(first)), second, None, enc),
+                                        Ok(got) => {
+                                            if got.clone().ok() != expect {
+                                                rep.fail("oracle", "C17:helper-depends-on-the-call-before", &format!("{} trap={} only_test={} right after decode({}, trap={}, chunk={}): helper {:?} codec {:?}", enc, trap_name(*t2), only_test, hex(first), trap_name(*t1), chunk1, got.ok(), expect), second, None, enc);
+                                            }
+                                        }
+                                    }
+                                }
+                            }
+                        }
+                    }
+                }
+            }
+        }
+    }
+    // ---- (a+) thorough tier: every two-byte sequence of every multi-byte codec between two ordinary characters, strict
+    //      mode: helper == codec (a writer path taken only for particular index entries shows up here)
+    if thorough {
+        for (enc, ctx) in [("euc-kr", "한"), ("big5", "中"), ("gbk", "中"), ("gb18030", "中"), ("euc-jp", "あ"), ("shift_jis", "あ")] {
+            if !sup.contains(&enc) {
+                continue;
+            }
+            let codec = encoding_from_whatwg_label(enc).unwrap();
+            let c = enc_bytes_lossy(ctx, enc);
+            for lead in 0x80..=0xffu32 {
+                for trail in 0x30..=0xffu32 {
+                    let mut b = c.clone();
+                    b.push(b'a');
+                    b.push(lead as u8);
+                    b.push(trail as u8);
+                    b.extend_from_slice(&c);
+                    let want = codec.decode(&b, DecoderTrap::Strict).ok();
+                    let got = decode(&b, enc, DecoderTrap::Strict, false, false).ok();
+                    rep.evaluations += 1;
+                    rep.oracle_checked += 1;
+                    if want.is_some() {
+                        rep.count(&format!("helper:two-byte-exhaustive-ok:{}", enc));
+                    }
+                    if got != want {
+                        rep.fail("oracle", "C17:helper-differs-from-codec", &format!("{} strict: helper {:?} codec {:?}", enc, got, want), &b, None, enc);
+                    }
+                }
+            }
+        }
+    }
+    // ---- (a') the multi-byte legacy decoders of the model (Model/Cjk.lean) against the codec library, strict mode
+    {
+        let encs = ["euc-kr", "big5", "gbk", "gb18030", "euc-jp", "shift_jis", "iso-2022-jp"];
+        let n = if thorough { 20000 } else { 2500 };
+        for i in 0..n {
+            let enc = *rng.pick(&encs);
+            let mut b = sample_bytes(&mut rng, enc);
+            // two-byte structure at random: lead/trail bytes from the interesting ranges
+            if i % 5 == 0 {
+                let k = rng.range(1, 12);
+                b = (0..k).map(|_| *rng.pick(&[0x30u8, 0x39, 0x40, 0x41, 0x7e, 0x7f, 0x80, 0x81, 0x8e, 0x8f, 0xa0, 0xa1, 0xdf, 0xe0, 0xf0, 0xf9, 0xfc, 0xfd, 0xfe, 0xff, 0x1b, 0x24, 0x28, 0x42, 0x44, 0x49, 0x4a, 0x0a, 0x21, 0x5f, 0x88, 0x62, 0x64, 0xa3, 0xa5]) ).collect();
+            }
+            if i % 7 == 0 {
+                // whole rows of the index: every trail byte under one lead
+                let lead = rng.range(0x81, 0xff) as u8;
+                b = (0x30..=0xffu32).flat_map(|t| [lead, t as u8]).collect();
+                if enc == "iso-2022-jp" {
+                    let lead = rng.range(0x21, 0x7f) as u8;
+                    b = b"\x1b$B".to_vec();
+                    b.extend((0x21..0x7fu8).flat_map(|t| [lead, t]));
+                }
+                // strict decoding stops at the first problem: cut the row at a random place so that long valid prefixes count
+                let k = rng.range(2, b.len().max(3));
+                b.truncate(k);
+            }
+            let real = super::c01::direct_decode(enc, &b);
+            let model = drv.ask(&format!("decode {} {} 0", enc, hex(&b)));
+            rep.evaluations += 1;
+            rep.t3_compared += 1;
+            rep.count(&format!("cjk:{}:{}", enc, if real.is_some() { "ok" } else { "err" }));
+            let want = match &real {
+                Some(t) => format!("ok T{}", text_hex(t)),
+                None => "ok E".to_string(),
+            };
+            if model != want {
+                rep.fail("t3", "C17:multibyte-decoder-model-disagrees", &format!("{}: codec {} || model {}", enc, want.chars().take(80).collect::<String>(), model.chars().take(80).collect::<String>()), &b, None, enc);
+            }
+        }
+    }
+    // ---- (a'') thorough tier: the two-byte space of every multi-byte decoder exhaustively (every lead byte >= 0x80 with every
+    //      trail byte), every three-byte JIS X 0212 sequence of euc-jp, every two-byte sequence of iso-2022-jp's double-byte
+    //      states, and every 13th four-byte sequence of gb18030 – each decoded on its own, since strict decoding stops at the first problem
+    if thorough {
+        let mut cases: Vec<(&str, Vec<u8>)> = Vec::new();
+        for enc in ["euc-kr", "big5", "gbk", "gb18030", "euc-jp", "shift_jis"] {
+            for lead in 0x80..=0xffu32 {
+                for trail in 0..=0xffu32 {
+                    cases.push((enc, vec![lead as u8, trail as u8]));
+                }
+            }
+        }
+        for a in 0xa0..=0xffu32 {
+            for b2 in 0xa0..=0xffu32 {
+                cases.push(("euc-jp", vec![0x8f, a as u8, b2 as u8]));
+            }
+        }
+        for esc in [&b"\x1b$B"[..], b"\x1b$@", b"\x1b$(D", b"\x1b(I", b"\x1b(J", b"\x1b(B"] {
+            for a in 0x20..=0x80u32 {
+                for b2 in 0x20..=0x80u32 {
+                    let mut v = esc.to_vec();
+                    v.push(a as u8);
+                    v.push(b2 as u8);
+                    cases.push(("iso-2022-jp", v));
+                }
+            }
+        }
+        let mut k = 0u32;
+        for a in 0x81..=0xfeu32 {
+            for b2 in 0x30..=0x39u32 {
+                for c in 0x81..=0xfeu32 {
+                    for d in 0x30..=0x39u32 {
+                        k += 1;
+                        if k % 13 == 0 {
+                            cases.push(("gb18030", vec![a as u8, b2 as u8, c as u8, d as u8]));
+                        }
+                    }
+                }
+            }
+        }
+        for (enc, b) in cases {
+            let real = super::c01::direct_decode(enc, &b);
+            let model = drv.ask(&format!("decode {} {} 0", enc, hex(&b)));
+            rep.evaluations += 1;
+            rep.t3_compared += 1;
+            rep.count(&format!("cjk-exhaustive:{}:{}", enc, if real.is_some() { "ok" } else { "err" }));
+            let want = match &real {
+                Some(t) => format!("ok T{}", text_hex(t)),
+                None => "ok E".to_string(),
+            };
+            if model != want {
+                rep.fail("t3", "C17:multibyte-decoder-model-disagrees", &format!("{}: codec {} || model {}", enc, want, model), &b, None, enc);
             }
         }
     }
